@@ -62,6 +62,7 @@ package isaacblock
 //@ func (SuffrageProof).Prove
 //@   prop C13
 //@   requires s.m != nil && s.st != nil
+//@   requires len(s.proof.nodes) < 4611686018427387904 && forall(k, 0 <= k && k < len(s.proof.nodes) && k > 2 ==> s.proof.nodes[k] != nil)
 //@   requires s.m.Manifest().Height() != 0 ==> previousState != nil
 //@   requires snd(base.LoadSuffrageNodesStateValue(s.st)) == nil
 //@   requires previousState != nil ==> fst(base.LoadSuffrageNodesStateValue(previousState)).Height() < 4611686018427387904
